@@ -131,11 +131,169 @@ Definition monitor_overlap (cfg : config) (np : nat) (pre : list (op * obs)) (ev
           | inr d => reindex i d
           | inl m2' =>
               let a2 := m2_a m2' in
-              if force && is_nil s1 && is_nil s2 && (dt =? 0)%nat && negb (force_code cfg a0 clA =? 0)
+              if force && is_nil s1 && is_nil s2 && negb (force_code cfg a0 clA =? 0)
               then [ERR_PROPERTY; i; force_code cfg a0 clA]
               else if negb (o_count x =? acount a2) then [ERR_PROPERTY; i; 3]
               else if negb (list_eqb pobs_eqb (o_peers x) (map (expect_peer a2) (seq 0 np))) then [ERR_PROPERTY; i; 4]
               else mon_run cfg np a2 (i + 1) post
           end
       end
+  end.
+
+(* ---- conformance of an overlap case: the LTS replays the schedule above (the
+        sort of each trim resolved by the model's own insertion sort over the
+        objects the entries point to) and must reproduce the entries pruned
+        before script 2, the state at quiescence (count, presence, values of
+        all peers) and, for regular trims, close only its own candidates -------- *)
+Definition thr_of (cs : c2) (i : bool) : thr := if i then c_b cs else c_a cs.
+
+Definition run1 (cfg : config) (cs : c2) (a : act2) : c2 * list ev2 :=
+  match c2step true cfg cs a with Some r => r | None => (cs, []) end.
+
+Fixpoint run_list (cfg : config) (cs : c2) (l : list act2) : c2 * list ev2 :=
+  match l with
+  | [] => (cs, [])
+  | a :: r => let '(cs1, e1) := run1 cfg cs a in let '(cs2, e2) := run_list cfg cs1 r in (cs2, e1 ++ e2)
+  end.
+
+Definition snap_acts (i : bool) (np : nat) : list act2 := map (fun p => BAct i (KSnap p)) (seq 0 np) ++ [BAct i KSnapEnd].
+
+Definition sort_act (i : bool) (cs : c2) : act2 :=
+  BAct i (KSortEnd (map fst (isort (map (fun e => (e_p e, obj (c_s cs) e)) (t_cands (thr_of cs i)))))).
+
+(* thread i runs until it needs the segment of a locked peer, or to the end *)
+Fixpoint run_thread (fuel : nat) (cfg : config) (np : nat) (i : bool) (locked : list nat) (cs : c2) : c2 * list ev2 :=
+  match fuel with
+  | O => (cs, [])
+  | S k =>
+      let t := thr_of cs i in
+      let go (l : list act2) :=
+        let '(cs1, e1) := run_list cfg cs l in
+        let '(cs2, e2) := run_thread k cfg np i locked cs1 in (cs2, e1 ++ e2) in
+      match t_ph t with
+      | QIdle => (cs, [])
+      | QSnap _ => if t_pass2 t then go (snap_acts i np) else (cs, [])
+      | QSort => go [sort_act i cs]
+      | QSel (p :: _) => if memn p locked && (0 <? t_tg t) then (cs, []) else go [BAct i KSelect]
+      | QSel [] => go [BAct i KSelect]
+      | QClose => go [BAct i KFinish]
+      end
+  end.
+
+Definition pruned_of (i : bool) (evs : list ev2) : list nat :=
+  flat_map (fun e => match e with VPrune j p => if Bool.eqb i j then [p] else [] | _ => [] end) evs.
+
+Definition same_set (a b : list nat) : bool := forallb (fun x => memn x b) a && forallb (fun x => memn x a) b.
+
+Definition conform_overlap (cfg : config) (np : nat) (pre : list (op * obs)) (ev : ovl) (post : list (op * obs)) : list Z :=
+  let '(akind, dt, xa, s1, pruned, locked, s2, x, clA, clB) := ev in
+  match conf_prefix cfg np (init cfg) 0 pre with
+  | inr d => d
+  | inl (s0, i) =>
+      let force := akind =? 13 in
+      let fuel := (4 * np + 40)%nat in
+      let cs0 := mkC2 s0 t_init t_init None in
+      let '(cs1, _) := run_list cfg cs0 ((if force then [BForceRead; BBeginForce] else [BAct false KBegin]) ++ snap_acts false np
+                                          ++ [BOp (Advance dt); BAct true KBegin] ++ snap_acts true np) in
+      (* both trims must be waiting for their sort, as on the implementation *)
+      match t_ph (c_a cs1), t_ph (c_b cs1) with
+      | QSort, QSort =>
+          let candsA := map e_p (t_cands (c_a cs1)) in
+          let candsB := map e_p (t_cands (c_b cs1)) in
+          let '(cs2, _) := run_list cfg cs1 (map BOp s1) in
+          let ix := negb xa in
+          let '(cs3a, e3a) := run_thread fuel cfg np ix locked cs2 in
+          (* no segment held by a parked trim: both trims had finished when script 2 ran *)
+          let '(cs3, e3b) := if is_nil locked then run_thread fuel cfg np (negb ix) [] cs3a else (cs3a, []) in
+          let e3 := pruned_of ix e3a ++ pruned_of (negb ix) e3b in
+          if negb (same_set e3 pruned) then [ERR_MISMATCH; i; 3; zlen e3; zlen pruned] else
+          let '(cs4, _) := run_list cfg cs3 (map BOp s2) in
+          let '(cs5, _) := run_thread fuel cfg np (negb ix) [] cs4 in
+          let '(cs6, _) := run_thread fuel cfg np ix [] cs5 in
+          let s6 := c_s cs6 in
+          if negb (q_idle (t_ph (c_a cs6)) && q_idle (t_ph (c_b cs6))) then [ERR_MISMATCH; i; 4; 0; 0]
+          else if negb (force || forallb (fun pc : nat * nat => memn (fst pc) candsA) clA) then [ERR_MISMATCH; i; 1; zlen clA; 0]
+          else if negb (forallb (fun pc : nat * nat => memn (fst pc) candsB) clB) then [ERR_MISMATCH; i; 1; zlen clB; 1]
+          else if negb (obs_state_eqb (mobs np s6 []) x) then [ERR_MISMATCH; i; 2; count s6; o_count x]
+          else conform_run cfg np s6 (i + 1) post
+      | _, _ => [ERR_MISMATCH; i; 5; 0; 0]
+      end
+  end.
+
+Definition decode_overlap (l : list Z) : option (config * nat * list (op * obs) * ovl * list (op * obs)) :=
+  match l with
+  | 3 :: np :: low :: high :: grace :: res :: nd :: r =>
+      if (np <? 0) || (64 <? np) || (nd <? 0) || (16 <? nd) || (res <=? 0) then None else
+      match decode_dtags (znat nd) r with
+      | Some (ds, npre :: r1) =>
+          if (npre <? 0) || (100000 <? npre) then None else
+          match decode_trace_n (znat npre) (znat np) r1 with
+          | Some (pre, akind :: dt :: xa :: ns1 :: r2) =>
+              if (ns1 <? 0) || (1000 <? ns1) || (dt <? 0) || (100000 <? dt) || negb ((akind =? 12) || (akind =? 13)) then None else
+              match decode_ops (znat ns1) r2 with
+              | Some (s1, npr :: r3) =>
+                  if (npr <? 0) || (64 <? npr) then None else
+                  match decode_nats (znat npr) r3 with
+                  | Some (pruned, nl :: r4) =>
+                      if (nl <? 0) || (64 <? nl) then None else
+                      match decode_nats (znat nl) r4 with
+                      | Some (locked, ns2 :: r5) =>
+                          if (ns2 <? 0) || (1000 <? ns2) then None else
+                          match decode_ops (znat ns2) r5 with
+                          | Some (s2, r6) =>
+                              match decode_obs (znat np) r6 with
+                              | Some (x, na :: r7) =>
+                                  if (na <? 0) || (1000 <? na) then None else
+                                  match decode_pairs (znat na) r7 with
+                                  | Some (clA, nb :: r8) =>
+                                      if (nb <? 0) || (1000 <? nb) then None else
+                                      match decode_pairs (znat nb) r8 with
+                                      | Some (clB, r9) =>
+                                          match decode_trace (S (length r9)) (znat np) r9 with
+                                          | Some post =>
+                                              if forallb script_op_ok s1 && forallb script_op_ok s2
+                                              then Some (mkCfg low high grace res ds, znat np, pre,
+                                                         (akind, znat dt, negb (xa =? 0), s1, pruned, locked, s2, x, clA, clB), post)
+                                              else None
+                                          | None => None
+                                          end
+                                      | None => None
+                                      end
+                                  | _ => None
+                                  end
+                              | _ => None
+                              end
+                          | None => None
+                          end
+                      | _ => None
+                      end
+                  | _ => None
+                  end
+              | _ => None
+              end
+          | _ => None
+          end
+      | _ => None
+      end
+  | _ => None
+  end.
+
+Definition conform_case (l : list Z) : list Z :=
+  match l with
+  | 3 :: _ =>
+      match decode_overlap l with
+      | Some (cfg, np, pre, ev, post) => conform_overlap cfg np pre ev post
+      | None => [ERR_MALFORMED; 3]
+      end
+  | _ => conform_case_k2 l
+  end.
+
+Definition monitor_case (l : list Z) : list Z :=
+  match l with
+  | 3 :: _ =>
+      match decode_overlap l with
+      | Some (cfg, np, pre, ev, post) => monitor_overlap cfg np pre ev post
+      | None => [ERR_MALFORMED; 3]
+      end
+  | _ => monitor_case_k2 l
   end.
